@@ -27,6 +27,7 @@ func init() {
 			m.RunNilErr(s, "R-NILERR")                                                   // a file whose parse gives up must have recorded an error, or it is loaded as if it were complete
 			m.RunLoadRecursion(s, "R-LOADREC")
 			m.RunLoadErr(s, "R-LOADERR")
+			m.RunCauseKept(s, "R-LOADERR") // the text of a file error (which names the file) is kept
 			m.RunPathAPI(s, "R-PATHAPI")
 			r := m.Roots()
 			var loadFns []*ssa.Function
